@@ -58,6 +58,10 @@ def _run(ch: Choices, focus: str = "C11", params: Optional[dict] = None) -> dict
         opts["types"] = ["dummy", "affine_leq", "alldifferent", "max_leq"]
         opts["flavour_weights"] = [1, 0, 0]
     model = gen.gen_model(ch, opts)
+    if focus in ("C11", "C03", "C12") and ch.chance(1, 10, "wide_table"):
+        # objective values of both signs near 32 bits: what the reducer compares (and must not subtract in 32 bits)
+        model = gen.wide_table_model(ch)
+        out["probes"]["wide_table_models"] += 1
     out["model"] = gen.render_model(model)
     out["model_dict"] = {k: model[k] for k in ("shr", "idx", "off", "props")}
     ref = sorted(R.solutions(model))
